@@ -159,7 +159,7 @@ def invalidate(world, cname, state, changed, seen=None):
     for name, a in world.attrs(cname).items():
         if changed in (a.get("invalidated_by") or ()) and name not in seen:
             seen.add(name)
-            dv = raw_default(world, cname, name)
+            dv = model_default(world, cname, name)  # as a newly constructed instance would hold it (prepared)
             if dv is ABSENT:
                 state.pop(name, None)
             else:
@@ -175,9 +175,10 @@ def set_attr(world, cname, state, attr, v):
 
 
 def reset_attr(world, cname, state, attr):
-    """Returns the set of acceptable states: the default may or may not have been run through the preparer (docs silent)."""
+    """Returns the set of acceptable states (one): the attribute holds what a newly constructed instance would hold - the
+    default as the constructor installs it, i.e. prepared."""
     outs = []
-    for dv in (raw_default(world, cname, attr), model_default(world, cname, attr)):
+    for dv in (model_default(world, cname, attr),):
         s = dict(state)
         if dv is ABSENT:
             s.pop(attr, None)
